@@ -47,7 +47,8 @@ class C15(Check):
     def extra_coverage(self, ctx):
         # tools/mk_net_orders.py: arrangements observed for the >= 4-operand networks of this run (recorded on the unchanged tree only)
         if os.environ.get("VERIF_RECORD_ORDERS"):
-            tab = {}
+            # every network of >= 4 operands of this run is entered: an empty list means "laid out in the declared order on the unchanged tree"
+            tab = {c["case"]: [] for c in getattr(self, "_plan", []) if len(c["labels"]) >= 4}
             for case, seqs in getattr(ctx, "order_lines", []):
                 arrs = [[int(x) for x in re.findall(r"-?\d+", a)] for a in re.findall(r"<<([\d,\s]*)>>", seqs)]
                 cur = tab.setdefault(case, [])
@@ -82,6 +83,7 @@ class C15(Check):
         for c in items:
             c["case"] = "net/%s/%s/%s" % (c["T"], c["mode"], ",".join("".join("ijklmnopq"[x - 1] for x in ls) for ls in c["labels"]))
         items.sort(key=lambda c: c["case"])
+        self._plan = items
         return items
 
     def stmt(self, c):
